@@ -414,6 +414,8 @@ func C17(ctx *core.Ctx) {
 		})
 	}
 
+	c17OpIDNotOverwritten(ctx, r, gen, opidConst)
+
 	// ---- R5 deep clone -----------------------------------------------------------
 	var cloners []*ssa.Function
 	for _, f := range r.Impl("FContextWithEphemeralProperties", "Clone") {
@@ -518,6 +520,85 @@ func C17(ctx *core.Ctx) {
 			}
 			ctx.Check(fresh && filled, "C17.R5", ssax.Name(fn)+" › copying accessor", fnPos(r, fn),
 				"returns make(map) filled entry by entry from the receiver's field", "accessor does not return an entry-wise copy of the receiver's map")
+		}
+	}
+}
+
+// c17OpIDNotOverwritten — part of C17.R4: outside the context's own
+// accessors, a request-header write under a key that is not a constant (a
+// copy loop over another context's headers) can overwrite the reserved op-id
+// header. It must be guarded by a test against the op-id key, or a fresh op id
+// must be assigned to the same context afterwards on every path.
+func c17OpIDNotOverwritten(ctx *core.Ctx, r *RT, gen *ssa.Function, opidConst string) {
+	isFresh := func(v ssa.Value) bool {
+		c, ok := CallValue(v)
+		return ok && c.Static != nil && c.Static == gen
+	}
+	for _, fn := range r.Fns {
+		if fn.Signature.Recv() != nil && ssax.TypeNamed(fn.Signature.Recv().Type(), "", "FContextImpl") && strings.HasPrefix(fn.Name(), "Add") {
+			continue // the primitive itself
+		}
+		n := 0
+		for _, c := range ssax.Calls(fn) {
+			if c.ShortName() != "AddRequestHeader" || len(c.Args()) != 3 {
+				continue
+			}
+			if _, isK := ConstString(c.Args()[1]); isK {
+				continue
+			}
+			n++
+			in := c.Instr.(ssa.Instruction)
+			target := ssax.Strip(c.Args()[0])
+			if mi, ok := target.(*ssa.MakeInterface); ok {
+				target = ssax.Strip(mi.X)
+			}
+			key := ssax.Strip(c.Args()[1])
+			// guarded: dominated by the edge on which key != opIDHeader
+			guarded := false
+			for cur := in.Block(); cur != nil && !guarded; cur = cur.Idom() {
+				if len(cur.Preds) != 1 {
+					continue
+				}
+				p := cur.Preds[0]
+				iff, ok := p.Instrs[len(p.Instrs)-1].(*ssa.If)
+				if !ok || p.Succs[0] == p.Succs[1] {
+					continue
+				}
+				bo, ok := iff.Cond.(*ssa.BinOp)
+				if !ok || (bo.Op != token.EQL && bo.Op != token.NEQ) {
+					continue
+				}
+				kx, sy := bo.X, bo.Y
+				if _, isC := ConstString(kx); isC {
+					kx, sy = sy, kx
+				}
+				if s, isC := ConstString(sy); !isC || s != opidConst || ssax.Strip(kx) != key {
+					continue
+				}
+				onTrue := p.Succs[0] == cur
+				if (bo.Op == token.NEQ && onTrue) || (bo.Op == token.EQL && !onTrue) {
+					guarded = true
+				}
+			}
+			// or re-assigned afterwards on every path to a return
+			reassigned := false
+			if !guarded {
+				setsID := func(i ssa.Instruction) bool {
+					c2, ok := ssax.AsCall(i)
+					if !ok || c2.ShortName() != "AddRequestHeader" || len(c2.Args()) != 3 {
+						return false
+					}
+					t2 := ssax.Strip(c2.Args()[0])
+					if mi, ok := t2.(*ssa.MakeInterface); ok {
+						t2 = ssax.Strip(mi.X)
+					}
+					k, isK := ConstString(c2.Args()[1])
+					return isK && k == opidConst && t2 == target && isFresh(c2.Args()[2])
+				}
+				reassigned = ssax.PathFrom(fn, in, ssax.IsReturn, setsID) == nil
+			}
+			ctx.Check(guarded || reassigned, "C17.R4", ssax.Name(fn)+sprintf(" › header copy #%d cannot overwrite the op id", n), r.IPos(in), "guarded by key != _opid, or a fresh op id is assigned afterwards",
+				"request headers are copied under arbitrary keys onto a context that already has its fresh op id, without excluding the reserved op-id header: the copy carries the source's op id, so the clone (and every sibling clone) shares it")
 		}
 	}
 }
